@@ -195,6 +195,11 @@ def rule_z6(ctx) -> None:
 def check(ctx) -> None:
     rule_z5(ctx)
     rule_z6(ctx)
+    # Z7: the stages count the rows that are returned: no row is removed from (or folded into another row of) the batch
+    # before the counting stages run (shared with C05-P1, de-duplication part)
+    from . import c05
+
+    c05.rule_p1(ctx, Pipeline(ctx), "C18-Z7", only_duplicates=True)
     pl = Pipeline(ctx)
     prog = ctx.prog
     f = pl.func
